@@ -18,7 +18,7 @@ DET = "src/orchestrator/language_detector.py"
 UTL = "src/core/linter_utils.py"
 FINGERPRINTS = [
     (CORE, ["_safe_check_rule", "_execute_rules", "lint_file", "lint_files", "_lint_file_worker", "_extract_violations_from_future",
-            "_collect_parallel_results", "_finalize_rules", "file_content"]),
+            "_collect_parallel_results", "_finalize_rules", "file_content", "lint_files_parallel", "_collect_cross_file_evidence"]),
     (DET, ["detect_language", "_detect_from_shebang", "_read_first_line", "_parse_shebang_language"]),
     (UTL, ["parse_python_ast", "with_parsed_python"]),
     ("src/linters/dry/linter.py", ["_process_file", "_analyze_and_store", "_extract_and_store_constants", "check"]),
@@ -98,10 +98,16 @@ def detect_shape():
             and isinstance(w.body[0], ast.Return) and ast.unparse(w.body[0].value) == "EXTENSION_MAP[ext]"):
         raise Unsupported("table lookup shape")
     i = b[2]
-    if not (isinstance(i, ast.If) and isinstance(i.test, ast.BoolOp) and isinstance(i.test.op, ast.And) and len(i.test.values) == 2
-            and ast.unparse(i.test.values[0]) == "file_path.exists()" and not i.orelse):
+    if not (isinstance(i, ast.If) and isinstance(i.test, ast.BoolOp) and isinstance(i.test.op, ast.And) and not i.orelse):
         raise Unsupported("shebang guard shape")
-    c = i.test.values[1]
+    conj = list(i.test.values)
+    no_ext_only = False
+    if ast.unparse(conj[0]) == "not ext":       # shebang consulted for extensionless names only
+        no_ext_only = True
+        conj = conj[1:]
+    if not (len(conj) == 2 and ast.unparse(conj[0]) == "file_path.exists()"):
+        raise Unsupported("shebang guard shape")
+    c = conj[1]
     if not (isinstance(c, ast.Compare) and ast.unparse(c.left) == "file_path.stat().st_size"):
         raise Unsupported("size test")
     op = cmp_op(c)
@@ -116,6 +122,7 @@ def detect_shape():
     if not (isinstance(r, ast.Return) and isinstance(const_value(r.value), str)):
         raise Unsupported("fallback")
     return (defn("detect_ext_lowered", "bool", "true" if lowered else "false")
+            + defn("shebang_requires_no_ext", "bool", "true" if no_ext_only else "false")
             + defn("shebang_size_cmp", "cmp", op) + defn("shebang_size_bound", "nat", str(k))
             + defn("unknown_language", "string", coq_string(const_value(r.value))))
 
@@ -210,7 +217,7 @@ def future_handlers():
 
 def file_content_handlers():
     return defn("file_content_handlers", "list handler",
-                _coq_handlers(_handlers(CORE, "file_content", "FileLintContext", "read_text(encoding='utf-8')")))
+                _coq_handlers(_handlers(CORE, "file_content", "FileLintContext", "self._path.read_text(encoding=")))
 
 
 def shebang_handlers():
@@ -264,6 +271,27 @@ def finalize_guards():
     if ast.unparse(_body(lf)[1].body[0]) != "violations.extend(self.lint_file(file_path))":
         raise Unsupported("lint_files first loop")
     return defn("finalize_guards", "list (string * bool)", coq_list([f"({coq_string(n)}, {'true' if g else 'false'})" for n, g in out]))
+
+
+def parallel_shape():
+    """lint_files_parallel: does the parent re-run the cross-file rules (those overriding finalize) over the files before finalizing?"""
+    cls = find_class(parse(CORE), "Orchestrator")
+    f = find_func(cls, "lint_files_parallel")
+    calls = [ast.unparse(n.func) for n in ast.walk(f) if isinstance(n, ast.Call)]
+    if "self._execute_parallel_linting" not in calls or "self._finalize_rules" not in calls:
+        raise Unsupported("lint_files_parallel calls " + str(calls))
+    collects = "self._collect_cross_file_evidence" in calls
+    if collects:
+        order = [c for c in calls if c in ("self._execute_parallel_linting", "self._collect_cross_file_evidence", "self._finalize_rules")]
+        if order != ["self._execute_parallel_linting", "self._collect_cross_file_evidence", "self._finalize_rules"]:
+            raise Unsupported("lint_files_parallel order " + str(order))
+        g = find_func(cls, "_collect_cross_file_evidence")
+        src = ast.unparse(g)
+        if "type(r).finalize is not BaseLintRule.finalize" not in src or "self._execute_rules(rules, context)" not in src:
+            raise Unsupported("_collect_cross_file_evidence shape")
+        if any(isinstance(n, ast.Try) for n in ast.walk(g)):
+            raise Unsupported("_collect_cross_file_evidence has a try")
+    return defn("par_parent_collects", "bool", "true" if collects else "false")
 
 
 def cli_error_exit():
@@ -409,6 +437,7 @@ ITEMS = [
     ("parse_python_handlers", parse_python_handlers),
     ("execute_rules_shape", execute_rules_shape),
     ("finalize_guards", finalize_guards),
+    ("parallel_shape", parallel_shape),
     ("cli_error_exit", cli_error_exit),
     ("dry_steps", dry_steps),
     ("stringly_steps", stringly_steps),
